@@ -12,8 +12,9 @@ import (
 	"go/types"
 	"sync"
 
-	"github.com/go-critic/go-critic/checkers"
 	"github.com/go-critic/go-critic/linter"
+
+	"verifharness/internal/load"
 )
 
 var (
@@ -25,15 +26,7 @@ var (
 
 // EnsureRules registers the embedded ruleguard checkers (once per process).
 func EnsureRules() error {
-	rulesOnce.Do(func() {
-		// the analyzer package (linked into vh) may already have registered the embedded rules
-		for _, info := range linter.GetCheckersInfo() {
-			if info.EmbeddedRuleguard {
-				return
-			}
-		}
-		rulesErr = checkers.InitEmbeddedRules()
-	})
+	rulesOnce.Do(load.InitRules)
 	return rulesErr
 }
 
